@@ -4,7 +4,14 @@
 SPECIFICATION Spec
 CONSTANTS
   MaxChunks = 3
-  MaxSize = 2
+  UnitSizes = {0, 1, 2}
+  UnitKinds = {"fmt"}
+  IfaceSets = {{}}
+  Route = "fmt"
+  MaxWrite = 0
+  PieceCount = "piece"
+  LatchBy = "test"
+  CachedViews = FALSE
   LatchError = TRUE
   CountAccepted = TRUE
   KeepFirstError = FALSE
